@@ -26,11 +26,12 @@ func spellings(r *gen.R) []ref.PrintOpts {
 func init() {
 	Register(&Property{
 		ID:            "C01",
-		Rule:          "core-language expressions (selector-chain grid over fixed documents; every comparison operator between all pairs of a 44-value pool of integers and decimals at the 2^31/2^32/2^53/2^63/2^64/10^19 boundaries (as filters, multi-selects and literals); index and slice literals at the 8/16/32/64-bit boundaries over arrays of 1..300 elements in every position an index can take: after a field, after a pipe, on the current node, after a parenthesis, inside projections and filters; seeded document-directed random ASTs rendered in two spellings) evaluated by Search and Compile+Search and compared with the independent reference model; a case is non-trivial when the model decides it and its outcome is a non-null, non-empty value or an error; distinct by (expression text, document)",
+		Rule:          "core-language expressions (selector-chain grid over fixed documents; field names that are keywords, literals or builtin names in other languages (true, false, null, and, or, not, length, sort ...) used as bare identifiers in every position an identifier can take; every comparison operator between all pairs of a 44-value pool of integers and decimals at the 2^31/2^32/2^53/2^63/2^64/10^19 boundaries (as filters, multi-selects and literals); index and slice literals at the 8/16/32/64-bit boundaries over arrays of 1..300 elements in every position an index can take: after a field, after a pipe, on the current node, after a parenthesis, inside projections and filters; seeded document-directed random ASTs rendered in two spellings) evaluated by Search and Compile+Search and compared with the independent reference model; a case is non-trivial when the model decides it and its outcome is a non-null, non-empty value or an error; distinct by (expression text, document)",
 		MinNontrivial: 200,
 		Streams: []Stream{
 			{Name: "random", N: func(c *Ctx) int { return tierN(c, 30000, 3000000) }, Run: c01Random},
 			{Name: "grid", N: c01GridN, Run: c01Grid, Exhaustive: true},
+			{Name: "keyword-identifiers", N: func(c *Ctx) int { return len(c01KeywordIdents) }, Run: c01KeywordIdentifiers, Exhaustive: true},
 			{Name: "number-boundaries", N: func(c *Ctx) int { return len(c01NumB) }, Run: c01NumberBoundaries, Exhaustive: true},
 			{Name: "index-boundaries", N: func(c *Ctx) int { return len(c01IdxLens) * len(c01IdxLits) }, Run: c01IndexBoundaries, Exhaustive: true},
 		},
@@ -123,5 +124,46 @@ func c01NumberBoundaries(c *Ctx, idx int) {
 	}
 	for _, f := range []string{"xs[?@ == `" + y + "`] | [0] == y", "[`" + y + "`] == [y]", "{k: `" + y + "`} == {k: y}", "`" + y + "` == y && y == `" + y + "`", "xs[?@ > `" + y + "`] | length(@) == length(xs[?`" + y + "` < @])"} {
 		c.CheckModel("C01", f, doc, goDoc, CheckOpts{Features: map[string]string{"stream": "number-boundaries"}})
+	}
+}
+
+// words that mean something special elsewhere (JSON, Python, SQL, other JMESPath
+// dialects, this library's builtin names) but are ordinary identifiers in the grammar
+var c01KeywordIdents = []string{"true", "false", "null", "True", "False", "None", "nil", "undefined", "NaN", "Infinity", "and", "or", "not", "is", "if", "then", "else", "select", "from", "where", "as", "like", "between", "exists", "contains", "length", "abs", "sort", "sort_by", "map", "keys", "values", "type", "to_string", "not_null", "merge", "max", "min", "sum", "join", "e", "E", "e1", "x", "_", "__proto__", "constructor", "this", "self", "root", "current", "item", "it", "value", "key", "index", "i", "n", "id", "let_", "in_", "lets", "inn", "letx", "int", "inf"}
+
+func c01KeywordIdentifiers(c *Ctx, idx int) {
+	k := c01KeywordIdents[idx]
+	for variant := 0; variant < 3; variant++ {
+		doc := ref.NewObj()
+		switch variant {
+		case 0: // the member exists and holds something unlike what the word suggests
+			doc.Set(k, &ref.Arr{E: []ref.V{gen.IntV(7), "seven"}})
+			inner := ref.NewObj()
+			inner.Set(k, "inner-"+k)
+			doc.Set("o", inner)
+		case 1: // absent: null
+			doc.Set("other", gen.IntV(1))
+		case 2:
+			doc.Set(k, false)
+			doc.Set("o", ref.NewObj())
+		}
+		recs := &ref.Arr{}
+		for i := 0; i < 3; i++ {
+			o := ref.NewObj()
+			if i != 1 {
+				o.Set(k, gen.IntV(int64(i)))
+			}
+			o.Set("n", gen.IntV(int64(i)))
+			recs.E = append(recs.E, o)
+		}
+		doc.Set("recs", recs)
+		goDoc := ref.ToGo(doc, ref.JSONNumber)
+		for _, f := range []string{"%s", "@.%s", "o.%s", "%s[0]", "%s[1]", "[%s, %s]", "{k: %s, %s: n}", "%s || 'dflt'", "!%s", "%s == `true`", "%s == `null`", "%s == `false`", "recs[?%s].n", "recs[?%s == `0`].n", "recs[?!%s].n", "recs[*].%s", "recs[*].[%s]", "recs[].%s", "o.%s || %s", "%s && 'yes'", "[%s][0]", "%s | [0]", "not_null(%s, 'nn')", "type(%s)", "to_array(%s)", "length(to_array(%s))", "let $v = %s in $v", "sort_by(recs, &n)[*].%s", "map(&%s, recs)", "recs[?%s != `null`] | length(@)", "%s.%s", "o.%s.%s", "*.%s", "recs[0:2].%s", "[?%s]", "%s[*]", "%s[::-1]"} {
+			text := strings.ReplaceAll(f, "%s", k)
+			m, _ := c.CheckModel("C01", text, doc, goDoc, CheckOpts{Compiled: variant == 0, Features: map[string]string{"stream": "keyword-identifiers", "word": k}})
+			if IsNontrivialOutcome(m) {
+				c.Nontrivial(text, fmt.Sprint(variant))
+			}
+		}
 	}
 }
